@@ -140,6 +140,12 @@ func checkC01(c *Ctx) {
 				}
 			}
 		}
+		// presentational hints on (legacy HTML attributes enter the cascade), fault-free
+		{
+			cfg := ref.Cfg
+			cfg.Hints = true
+			add(ref, "hints", cfg, OrderPlan{Mode: "canon"}, nil)
+		}
 		// restart patterns without faults (every subset)
 		if K := sc.Expect.Probes; K > 0 && ref.Cfg.Engine == "pango" {
 			for _, s := range subsets(K)[1:] {
